@@ -7,7 +7,7 @@ from symx import Unit, as_rope, check_property, decide, load, rope_eq, run_canar
 from symx.ideal import World
 from symx.rope import HexOf
 
-from . import c02, common, hap
+from . import common, hap
 from .c01 import T_ENC, T_ID, T_METHOD, T_PROOF, T_PUBKEY, T_SALT, T_SIG, T_STATE, eq, send
 from .refs import tlv8_encode
 
@@ -63,7 +63,7 @@ def part1(M):
     return h
 
 
-PROOFS = ["right", "wrong-code", "arbitrary", "short", "front-truncated", "empty", "absent"]
+PROOFS = ["right", "wrong-code", "arbitrary", "short", "front-truncated", "empty", "absent", "absent-but-encrypted-data"]
 ACC_IDS = [hap.ACC_ID.encode(), b"7c:2a:91:0b:e4:5d", b"bridge-0001"]
 M6S = ["honest", "honest-but-empty-state", "absent", "arbitrary", "truncated", "wrong-key-label", "wrong-nonce", "inner", "fields-outside-envelope"]
 OUTSIDE = ["signature", "identifier", "public-key", "all"]
@@ -105,6 +105,10 @@ def part2(M):
         else:
             proof = None
         fields = [(T_STATE, b"\x04")] + ([(T_PROOF, proof)] if proof is not None else [])
+        if psel == "absent-but-encrypted-data":
+            # no proof at all, but some other item of a later message rides along (needs no knowledge of the setup code)
+            fields.append((T_ENC, be.arbitrary("m4enc", 24)))
+            expected = None  # as BLE hands it over (the IP/CoAP filter for M4 would drop the item)
         try:
             req, expected = send(M, be, gen, fields, expected)
         except StopIteration:
@@ -292,6 +296,7 @@ def two_pairings(M):
 
 
 def build(tier, mutate=None):
+    from . import c02
     C = copies(mutate)
     R = reals()
     units = [
